@@ -4,6 +4,8 @@ import Driver.Enc
 import Driver.Handlers
 import Driver.Mapper
 import Driver.Watch
+import Driver.Store
+import Driver.Expand
 
 open Driver
 
@@ -16,6 +18,8 @@ def dispatch (comp : String) (toks : List String) : String :=
   else if comp == "mapper" then handleMapper toks
   else if comp == "watch" then handleWatch toks
   else if comp == "conc" then handleConc toks
+  else if comp == "store" then handleStore toks
+  else if comp == "expand" then handleExpand toks
   else "bad-op"
 
 partial def loop (h : IO.FS.Stream) (out : IO.FS.Stream) : IO Unit := do
